@@ -45,6 +45,7 @@ PLUGINS = {
 }
 PLUGIN_SETS = [(), ("shorter",), ("extract",), ("noreimp",), ("fwdrefs",), ("shorter", "extract", "noreimp"), (),
                ("shorter", "extract", "fwdrefs", "noreimp")]
+FS = "C10-isort-filesystem-sections"
 CORPUS = os.path.join(os.environ.get("VERIF_ROOT", "/verif"), "corpus", "C10")
 
 
@@ -100,7 +101,13 @@ def has_fwdrefs(req: dict) -> bool:
 
 
 def run_isolated(req: dict, hashseed: int) -> dict:
-    w = workers.Worker(WORKER, env=workers.child_env(hashseed=str(hashseed)))
+    # start_cwd: the interpreter STARTS in the project directory, as the CLI does — isort fixes its source paths
+    # (<cwd>/src, <cwd>) when it is imported, so a later chdir does not make the project visible to it
+    cwd = None
+    if req.get("start_cwd"):
+        cwd = req["dir"]
+        os.makedirs(cwd, exist_ok=True)
+    w = workers.Worker(WORKER, env=workers.child_env(hashseed=str(hashseed)), cwd=cwd)
     try:
         return w.ask(req)
     finally:
@@ -113,7 +120,7 @@ def run_pool(reqs: list[dict], hashseed: int, jobs: int = 14) -> list[dict]:
     an interpreter of their own, so that a return of that defect shows up in the dedicated same-interpreter
     sequences (with a clear label) rather than as scattered hash-seed differences."""
     out: list = [None] * len(reqs)
-    iso = [i for i, r in enumerate(reqs) if has_fwdrefs(r)]
+    iso = [i for i, r in enumerate(reqs) if has_fwdrefs(r) or r.get("start_cwd")]
     pooled = [i for i in range(len(reqs)) if i not in set(iso)]
     for i, r in zip(pooled, workers.generate_many([reqs[i] for i in pooled], jobs=jobs, hashseed=str(hashseed), script=WORKER)):
         out[i] = r
@@ -254,6 +261,9 @@ def k1_scan(ctx, repo):
             f"K1 new unordered-collection site not in the model's site table: {s['file']}:{s['lines'][0]} "
             f"{s['function']}: {s['context']} {s['expression']}", {"stage": "K1 static scan", "new_site": s},
             found_input=False)
+    isort_calls = [k for k in counts if k[2] == "formatter" and k[3].startswith("isort.")]
+    ctx._forms = {"isort_fs_free": bool(isort_calls) and all(table.get(k, ("",))[0] == "puretext" for k in isort_calls)}
+    run.extra["model_forms"] = dict(ctx._forms)
     stale = [list(k) for k in table if k not in counts]
     run.extra["table_rows_not_in_code"] = stale
     run.extra["order_sensitive_rows_present"] = [list(k) for k, v in table.items() if v[1] and k in counts]
@@ -269,6 +279,7 @@ class Case:
         self.split_schema = None
         self.split_queries = None
         self.probe = {}
+        self.selfimport = False   # some generated module imports ABSOLUTELY from the target package itself
 
     def config(self, **over) -> dict:
         cfg = dict(self.sc.config)
@@ -284,7 +295,7 @@ class Case:
             schema = self.split_schema if split_order == 0 else c10_gen.shuffled(self.split_schema, r)
             queries = self.split_queries if split_order == 0 else c10_gen.shuffled(self.split_queries, r)
         return {"dir": d, "schema": schema, "queries": queries, "config": self.config(**cfg_over),
-                "files": dict(self.sc.files), "sid": self.sid}
+                "files": dict(self.sc.files), "sid": self.sid, "start_cwd": self.selfimport}
 
 
 def build_cases(ctx) -> list[Case]:
@@ -313,7 +324,39 @@ def build_cases(ctx) -> list[Case]:
     for i in range(n_fold):
         sc = c10_gen.make(500 + i + ctx.seed * 10007, ("casefold",))
         cases.append(Case(f"casefold{i}", sc, PLUGIN_SETS[(i * 2) % len(PLUGIN_SETS)], "casefold"))
+    # paths that point INTO the target package (cwd = project directory): custom scalar parse/serialize/type,
+    # a @mixin import, a custom base client — the files are copied into the package by files_to_include
+    for i in range(9 if t else 3):
+        sc = c10_gen.make(900 + i + ctx.seed * 10007)
+        cfg = dict(sc.config)
+        files = dict(sc.files)
+        queries = sc.queries
+        shape = i % 3
+        if shape in (0, 2):
+            files["scalars_pkg.py"] = c10_gen.SCALARS_PY + "class MyBlob(dict):\n    pass\n"
+            cfg["files_to_include"] = ["scalars_pkg.py"]
+            cfg["scalars"] = {"DateTime": {"type": "datetime.datetime", "parse": "gen_client.scalars_pkg.parse_dt",
+                                           "serialize": "gen_client.scalars_pkg.ser_dt"},
+                              "JSONBlob": {"type": "gen_client.scalars_pkg.MyBlob"}}
+        if shape in (1, 2):
+            files["mixins_pkg.py"] = "class LinkMixin:\n    def link_id(self):\n        return getattr(self, 'id', None)\n"
+            cfg["files_to_include"] = cfg.get("files_to_include", []) + ["mixins_pkg.py"]
+            queries += '\nquery WithMixin { t0 { id link @mixin(from: "gen_client.mixins_pkg", import: "LinkMixin") { id } } }\n'
+        if shape == 1:
+            src = open(os.path.join(workers.REPO, "ariadne_codegen", "client_generators", "dependencies",
+                                    "async_base_client.py" if cfg.get("async_client", True) else "base_client.py")).read()
+            name = "AsyncBaseClient" if cfg.get("async_client", True) else "BaseClient"
+            files["my_base_client.py"] = src.replace(f"class {name}", "class MyBaseClient")
+            cfg["base_client_file_path"] = "my_base_client.py"
+            cfg["base_client_name"] = "MyBaseClient"
+        sc2 = scen_gen.Scenario(seed=sc.seed, sdl=sc.sdl, queries=queries, config=cfg, features=sc.features + ("selfimport",),
+                                files=files)
+        c = Case(f"selfimport{i}", sc2, PLUGIN_SETS[[0, 2, 1][i % 3]], "selfimport")
+        c.selfimport = True
+        cases.append(c)
     for i, c in enumerate(cases[n_corpus:]):
+        if c.kind == "selfimport":
+            continue
         if i % 3 == 1:   # pruned enums / inputs (the used-name lists come from several generators)
             c.sc.config = {**c.sc.config, "include_all_enums": False, "include_all_inputs": False}
     for c in cases:
@@ -340,9 +383,49 @@ def toplevel_multiset(src: str):
     return sorted(ast.dump(s) for s in tree.body)
 
 
+def import_block_view(src: str):
+    """(sorted dumps of the top-level import statements, dumps of everything else in order)"""
+    tree = ast.parse(src)
+    imps = sorted(ast.dump(st) for st in tree.body if isinstance(st, (ast.Import, ast.ImportFrom)))
+    rest = [ast.dump(st) for st in tree.body if not isinstance(st, (ast.Import, ast.ImportFrom))]
+    return imps, rest
+
+
+def import_blocks(src: str):
+    """blocks of consecutive top-level import statements -> ([(level, module) in file order], [[absolute modules]...])"""
+    tree = ast.parse(src)
+    imps, blocks, prev_end = [], [], None
+    for st in tree.body:
+        if isinstance(st, ast.ImportFrom):
+            items = [(st.level, st.module or "")]
+        elif isinstance(st, ast.Import):
+            items = [(0, a.name) for a in st.names]
+        elif isinstance(st, ast.Expr) and isinstance(getattr(st, "value", None), ast.Constant) and not imps:
+            continue   # module docstring / leading comment string
+        else:
+            break
+        if prev_end is None or st.lineno != prev_end + 1:
+            blocks.append([])
+        prev_end = st.end_lineno
+        imps.extend(items)
+        for lv, m in items:
+            if lv == 0 and m not in blocks[-1]:
+                blocks[-1].append(m)
+    return imps, [b for b in blocks if b]
+
+
 class Classifier:
     def __init__(self):
         self._keys = {}
+
+    def explain_fs(self, fname: str, a: bytes, b: bytes) -> bool:
+        """the two files differ only in how their top-level imports are arranged into blocks"""
+        if not fname.endswith(".py"):
+            return False
+        try:
+            return import_block_view(a.decode()) == import_block_view(b.decode())
+        except (SyntaxError, UnicodeDecodeError):
+            return False
 
     def key(self, name: str) -> str:
         if name not in self._keys:
@@ -435,6 +518,58 @@ def k1_probe(ctx, case: Case, seed: int, res: dict, files: dict[str, bytes]):
         run.dist("probe_typename_values", str(min(len(tv["values"]), 8)))
 
 
+def k1_layout(ctx, c: Case, results):
+    """Model layout (isort's section placement under the filesystem oracle gen_env) vs the import blocks on disk:
+    fresh, regenerated (target package present) and with extra directories in cwd."""
+    run = ctx.run
+    if not hasattr(ctx, "_stdlib"):
+        from isort.stdlibs import py3
+
+        ctx._stdlib = sorted(py3.stdlib)
+    cwd0 = sorted({f.split("/")[0].removesuffix(".py") for f in c.sc.files if f.endswith(".py") or "/" in f})
+    variants = [(("cwdbase", 0), cwd0, False),
+                (("shadow", 0), sorted(set(cwd0) | {"pydantic", "typing_extensions"}), False)]
+    if c.selfimport:   # all runs of these cases start in the project directory
+        variants += [(("seed", 0), cwd0, False), (("regen", 0, 0), cwd0, True)]
+    cmds, meta = [], []
+    for key, cwd, regen in variants:
+        files = results.get((c.sid, key))
+        if not files:
+            continue
+        # modules first placed while the package directory was still empty: those of the first formatted file
+        first_file = c.sc.config.get("input_types_module_name", "input_types") + ".py"
+        try:
+            early = sorted({m for lv, m in import_blocks(files[first_file].decode())[0] if lv == 0})
+        except (KeyError, SyntaxError, UnicodeDecodeError):
+            early = []
+        for fn in sorted(files):
+            if not fn.endswith(".py") or "/" in fn:
+                continue
+            try:
+                imps, blocks = import_blocks(files[fn].decode())
+            except (SyntaxError, UnicodeDecodeError):
+                continue
+            if not any(lv == 0 for lv, _m in imps):
+                continue
+            cmds.append([Sym("layout"), bool(ctx._forms.get("isort_fs_free")), ctx._stdlib, cwd, "gen_client", regen,
+                         early, [[lv, m] for lv, m in imps]])
+            meta.append((key, fn, blocks))
+    copied = {"async_base_client.py", "base_client.py", "async_base_client_open_telemetry.py",
+              "base_client_open_telemetry.py", "base_model.py", "exceptions.py", "my_base_client.py", "scalars_pkg.py",
+              "mixins_pkg.py", "scalars_impl.py"}
+    for (key, fn, blocks), got in zip(meta, model.batch("C10", cmds) if cmds else []):
+        if fn in copied:
+            continue   # copied verbatim, never passed through isort
+        run.count()
+        run.dist("k1_layout", key[0])
+        if got != blocks:
+            run.violation(f"K1 layout: model blocks {got} vs import blocks of {fn} {blocks} ({c.sid}, {key})",
+                          {"stage": "K1 isort sections", "case": c.sid, "variant": list(map(str, key)), "file": fn,
+                           "model": got, "real": blocks}, found_input=False)
+        elif len(blocks) >= 3:
+            run.nontrivial_case(("layout-first-party", c.sid, key[0]))
+
+
 # ----------------------------------------------------------------------------------------------- search
 def shrink(ctx, case: Case, seed_a: int, seed_b: int, scratch, budget: int = 40):
     """smallest operations document on which the two hash seeds still give different bytes"""
@@ -498,8 +633,22 @@ def shrink(ctx, case: Case, seed_a: int, seed_b: int, scratch, budget: int = 40)
 MAX_REPORTS, MAX_SHRINKS = 12, 2
 
 
-def report_mismatch(ctx, case: Case, what: str, la: str, lb: str, fa: dict, fb: dict, scratch, seeds=None):
+def report_mismatch(ctx, case: Case, what: str, la: str, lb: str, fa: dict, fb: dict, scratch, seeds=None,
+                    env_variant=False):
     run = ctx.run
+    # the one open finding class: isort's first-party detection looks below cwd.  Input predicate: a generated
+    # module imports absolutely from the target package (case.selfimport), or the two runs differ in what cwd
+    # contains (env_variant); AND each differing file differs only in the arrangement of its import blocks
+    if (case.selfimport or env_variant) and not ctx._forms.get("isort_fs_free"):
+        differing = [n for n in sorted(set(fa) | set(fb)) if fa.get(n) != fb.get(n)]
+        if differing and all(n in fa and n in fb and ctx._cls.explain_fs(n, fa[n], fb[n]) for n in differing):
+            for n in differing[:3]:
+                run.finding(FS, f"{case.sid}: {n} differs between {la} and {lb} ({what})",
+                            {"case": case.sid, "variants": [la, lb], "file": n, "config": case.config(),
+                             "queries": case.sc.queries, "schema": case.sc.sdl, "extra_files": sorted(case.sc.files),
+                             "diff": udiff(fa[n], fb[n], n, la, lb, 40)})
+            run.dist("finding_files", FS, len(differing))
+            return
     st = ctx.__dict__.setdefault("_reports", {"n": 0, "shrinks": 0, "seen": set()})
     st["n"] += 1
     run.dist("unexplained_differences", what)
@@ -598,6 +747,14 @@ def k3(ctx, scratch):
                 r = c.request(scratch.new(c.sid), split_order=0)
                 r["listing_order"] = lo
                 plan[0].append(((c.sid, ("listing", lo)), r))
+            # cwd contains an unrelated directory named like an imported module
+            r = c.request(scratch.new(c.sid))
+            r["start_cwd"] = True
+            plan[0].append(((c.sid, ("cwdbase", 0)), r))
+            r = c.request(scratch.new(c.sid))
+            r["files"] = {**r["files"], "pydantic/.keep": "", "typing_extensions/.keep": ""}
+            r["start_cwd"] = True
+            plan[0].append(((c.sid, ("shadow", 0)), r))
             # stale target directory
             r = c.request(scratch.new(c.sid))
             r["files"] = {**r["files"], **stale_files}
@@ -716,6 +873,21 @@ def k3(ctx, scratch):
             for s in (1, 2):
                 compare(c, ("stable", 0), ("stable", s), "stable seed 0", f"stable seed {s}", "hash seed (stable comments)",
                         seeds_pair=None)
+            # an unrelated directory named like an imported module next to the project files
+            sh, cb = results.get((c.sid, ("shadow", 0))), results.get((c.sid, ("cwdbase", 0)))
+            if sh is not None and cb is not None:
+                run.count()
+                run.dist("comparisons", "cwd contains a directory named like an imported module")
+                if sh != cb:
+                    report_mismatch(ctx, c, "cwd contains a directory named like an imported module", "plain cwd",
+                                    "cwd with pydantic/ and typing_extensions/", cb, sh, scratch, env_variant=True)
+                run.count()
+                run.dist("comparisons", "interpreter started in the project directory vs elsewhere")
+                if cb != base:
+                    report_mismatch(ctx, c, "interpreter started in the project directory vs elsewhere (chdir later)",
+                                    "started elsewhere", "started in the project directory", base, cb, scratch,
+                                    env_variant=True)
+            k1_layout(ctx, c, results)
             # stale directory: the files of the package are those of a fresh run, the others are untouched
             st = results.get((c.sid, ("stale", 0)))
             if st is not None:
@@ -726,7 +898,10 @@ def k3(ctx, scratch):
                     report_mismatch(ctx, c, "generation over a stale directory differs on the package's files",
                                     "fresh", "over stale", base, {k: v for k, v in st.items() if k in pkg}, scratch)
                 stale_rel = {os.path.relpath(k, "gen_client"): v.encode() for k, v in stale_files.items()}
-                p = [[k, base[k].decode("utf-8", "surrogateescape")] for k in sorted(base)]
+                # the package as generated while the target directory exists (for the open isort class the fresh
+                # bytes differ in import blocks; that difference is reported above, not here)
+                pk = results.get((c.sid, ("regen", 0, 0)), base) if (c.selfimport and not ctx._forms.get("isort_fs_free")) else base
+                p = [[k, pk[k].decode("utf-8", "surrogateescape")] for k in sorted(pk)]
                 fs = [[k, v.decode()] for k, v in stale_rel.items()]
                 try:
                     m = dict(map(tuple, model.call("C10", [Sym("writeall"), p, fs])))
